@@ -29,6 +29,8 @@ inductive Ty where
   | wrap (k : WK) (t : Ty)
   | cls (c : Nat)
   | td (c : Nat)
+  /-- `Union[K₁, …, Kₙ]` / `Union[K₁, …, Kₙ, None]` of attrs classes / dataclasses of the class table -/
+  | union (cs : List Nat) (hasNone : Bool)
   deriving Repr, Inhabited
 
 inductive Dflt where
